@@ -1,7 +1,6 @@
 //! C14 — clones are independent and results do not depend on scheduling.
 
 use crate::engine::{factory, is_limit_error, mask_words, matcher, GrammarSpec};
-use crate::gen::any_grammar;
 use crate::runner::{Ctx, Prop, Tier, R};
 use crate::util::{frac, truncate_str, Fnv};
 use crate::vocab::{Vocab, VocabSpec};
@@ -104,7 +103,15 @@ enum Concrete {
     Skip,
 }
 
-fn concretise(act: &Act, priv_m: &mut Matcher, tokens: &[u32], vocab: &Vocab) -> Concrete {
+/// known findings (see C11): a query on a grammar with a hidden stop= lexeme kills the engine
+fn hidden_stop_panic(m: &Matcher, can_rollback: bool) -> Option<String> {
+    if can_rollback {
+        return None;
+    }
+    m.get_error().and_then(|e| crate::engine::hidden_stop_panic(&e)).map(|k| format!("C14/{}", k))
+}
+
+fn concretise(act: &Act, priv_m: &mut Matcher, tokens: &[u32], vocab: &Vocab, can_rollback: bool) -> Concrete {
     let n = vocab.len();
     match act {
         Act::Commit(st) => {
@@ -135,7 +142,8 @@ fn concretise(act: &Act, priv_m: &mut Matcher, tokens: &[u32], vocab: &Vocab) ->
             Concrete::Validate(seq)
         }
         Act::Rollback(fr) => {
-            if tokens.is_empty() {
+            // rollback is documented as unsupported with stop= / max_tokens= lexemes
+            if tokens.is_empty() || !can_rollback {
                 Concrete::Skip
             } else {
                 Concrete::Rollback(1 + frac(*fr, tokens.len()))
@@ -260,7 +268,7 @@ impl Prop for C14 {
         tier.pick(120, 1200)
     }
     fn strategy(&self, tier: Tier) -> BoxedStrategy<Case> {
-        let g = prop_oneof![2 => lexer_heavy_grammar(), 3 => any_grammar()];
+        let g = prop_oneof![2 => lexer_heavy_grammar(), 3 => crate::gen::any_grammar_ext()];
         g.prop_flat_map(move |g| {
             let ev = prop_oneof![
                 1 => (any::<u8>(), any::<bool>()).prop_map(|(src, deep)| Event::Clone { src, deep }),
@@ -285,6 +293,7 @@ impl Prop for C14 {
             Err(_) => return Ok(()),
         };
         let n = vocab.len();
+        let can_rollback = crate::gen::supports_rollback(&case.g);
         let f = factory(&vocab);
         let base = match self.base_engine(&f, case, &vocab) {
             Some(b) => b,
@@ -318,7 +327,7 @@ impl Prop for C14 {
                         Some(p) => p,
                         None => return Ok(()),
                     };
-                    let c = concretise(act, &mut pm, &engs[w].tokens, &vocab);
+                    let c = concretise(act, &mut pm, &engs[w].tokens, &vocab, can_rollback);
                     if c == Concrete::Skip {
                         continue;
                     }
@@ -338,8 +347,15 @@ impl Prop for C14 {
                         return Ok(());
                     }
                     if got != want {
-                        return ctx.fail("C14/clone-differs-from-private-engine", || {
-                            format!("grammar {} base tokens {:?} schedule {:?}: engine e{} returned {:?}, a private engine with the same history returns {:?}", gtxt, base.tokens, log, w, short_out(&got), short_out(&want))
+                        let mut k = hidden_stop_panic(&e.m, can_rollback);
+                        if k.is_none() && e.m.get_error().is_some_and(|x| x.contains("PoisonError")) {
+                            // the panic happened in another clone that shares the lexer tables and poisoned their mutex
+                            k = engs.iter().find_map(|o| hidden_stop_panic(&o.m, can_rollback));
+                        }
+                        let k = k.unwrap_or_else(|| "C14/clone-differs-from-private-engine".to_string());
+                        let e = &engs[w];
+                        return ctx.fail(&k, || {
+                            format!("grammar {} base tokens {:?} schedule {:?}: engine e{} returned {:?}, a private engine with the same history returns {:?} (engine error: {:?})", gtxt, base.tokens, log, w, short_out(&got), short_out(&want), e.m.get_error().map(|x| crate::engine::short_err(&x)))
                         });
                     }
                     if let Concrete::Commit(_) = c {
@@ -371,7 +387,7 @@ impl Prop for C14 {
                     Some(p) => p,
                     None => return Ok(()),
                 };
-                let c = concretise(act, &mut pm, &pair[w].tokens, &vocab);
+                let c = concretise(act, &mut pm, &pair[w].tokens, &vocab, can_rollback);
                 if c == Concrete::Skip {
                     continue;
                 }
@@ -388,8 +404,9 @@ impl Prop for C14 {
                     return Ok(());
                 }
                 if got != want {
-                    return ctx.fail("C14/interleaving-changes-result", || {
-                        format!("grammar {} base tokens {:?}: interleaving {:?} of scripts {:?}: clone {} returned {:?}, private engine {:?}", gtxt, base.tokens, il, case.pair, w, short_out(&got), short_out(&want))
+                    let k = hidden_stop_panic(&e.m, can_rollback).unwrap_or_else(|| "C14/interleaving-changes-result".to_string());
+                    return ctx.fail(&k, || {
+                        format!("grammar {} base tokens {:?}: interleaving {:?} of scripts {:?}: clone {} returned {:?}, private engine {:?} (engine error: {:?})", gtxt, base.tokens, il, case.pair, w, short_out(&got), short_out(&want), e.m.get_error().map(|x| crate::engine::short_err(&x)))
                     });
                 }
             }
@@ -417,7 +434,7 @@ impl Prop for C14 {
                     Some(p) => p,
                     None => return Ok(()),
                 };
-                let c = concretise(act, &mut pm, &toks, &vocab);
+                let c = concretise(act, &mut pm, &toks, &vocab, can_rollback);
                 let mut pm = match private(&vocab, &case.g, &toks) {
                     Some(p) => p,
                     None => return Ok(()),
@@ -463,7 +480,11 @@ impl Prop for C14 {
                 }
                 if outs != plans[k].1 {
                     let i = outs.iter().zip(&plans[k].1).position(|(a, b)| a != b).unwrap_or(0);
-                    return ctx.fail("C14/parallel-run-differs-from-private-engine", || {
+                    let key = match err.as_ref().and_then(|e| crate::engine::hidden_stop_panic(e)) {
+                        Some(k) if !can_rollback => format!("C14/{}", k),
+                        _ => "C14/parallel-run-differs-from-private-engine".to_string(),
+                    };
+                    return ctx.fail(&key, || {
                         format!("grammar {} base tokens {:?}: with {} threads, clone {} act #{} {:?} returned {:?}, private engine {:?}", gtxt, base.tokens, nthreads, k, i, plans[k].0.get(i), short_out(&outs[i]), short_out(&plans[k].1[i]))
                     });
                 }
